@@ -398,6 +398,12 @@ class Gen:
                 imp_lines.append(f"  - {rel}")
             if shape == "cycle" and i == 0 and k >= 2:
                 imp_lines.append(f"  - {self._rel(paths[0], paths[k - 1])}")
+            if imp_lines and rng.random() < (0.5 if shape in ("dirgraph", "siblings", "respell") else 0.1):
+                # the same file listed twice in one import list
+                # (after its first occurrence, so the order in which files are first read stays the generation order)
+                j0 = rng.randrange(len(imp_lines))
+                imp_lines.insert(rng.randint(j0 + 1, len(imp_lines)), imp_lines[j0])
+                self.desc.features.add("import_listed_twice")
             head = "imports:" + (" null\n" if not imp_lines else "\n" + "\n".join(imp_lines) + "\n")
             files[paths[i]] = head + body
         symlinks = {}
